@@ -49,12 +49,33 @@ pub fn gen(tier: &str, seed: u64, out: &mut dyn Write) {
             }
         }
         // crafted relative paths
-        for craft in 1..=10 {
+        for craft in 1..=12 {
             for pre in [0u32, 2, 3, 5] {
                 let rich = rng.below(32) as u32;
-                let load = if (craft >= 5 && craft <= 7) || craft == 10 { 1 } else { rng.below(2) as u32 };
+                let load = if (craft >= 5 && craft <= 7) || craft >= 10 { 1 } else { rng.below(2) as u32 };
                 emit(out, &scratch, &format!("rich={} load={} stores=1 sabot=0 kinds=0 pre={} craft={} e=", rich, load, pre, craft));
             }
+        }
+    }
+    // other entry points, other spellings of the target, fonts from partial loads (phase 3 review)
+    for wo in 1..=2 {
+        for pre in 0..6 {
+            for load in 0..2 {
+                emit(out, &scratch, &format!("rich={} load={} stores=1 sabot=0 kinds=0 pre={} craft=0 wo={} e=", rng.below(32), load, pre, wo));
+            }
+        }
+    }
+    for tsp in 1..=2 {
+        for pre in 0..6 {
+            emit(out, &scratch, &format!("rich={} load={} stores=2 sabot=0 kinds=0 pre={} craft=0 tsp={} e=", rng.below(32), pre % 2, pre, tsp));
+        }
+        for craft in [2u32, 5, 10] {
+            emit(out, &scratch, &format!("rich=3 load=1 stores=1 sabot=0 kinds=0 pre=2 craft={} tsp={} e=", craft, tsp));
+        }
+    }
+    for part in 1..=2 {
+        for pre in [0u32, 2, 3, 5] {
+            emit(out, &scratch, &format!("rich=31 load=1 stores=2 sabot=0 kinds=0 pre={} craft=0 part={} e=", pre, part));
         }
     }
     rm_rf(&scratch);
